@@ -13,7 +13,11 @@ use rosu_map::section::hit_objects::{BorrowedCurve, Curve, CurveBuffers, HitObje
 use rosu_map::util::Pos;
 use std::num::NonZeroI32;
 
-pub struct C18;
+pub struct C18 {
+    pub corpus: std::sync::Arc<crate::corpus::Corpus>,
+}
+
+static PAIRS: crate::engine::PairTable = crate::engine::PairTable::new(&["owned", "borrowed", "sp_new", "sp_curve", "sp_curve_bufs", "sp_borrowed", "sp_duration", "sp_end_time", "sp_push", "sp_pop", "sp_set", "sp_settype", "sp_len", "sp_clear"]);
 
 fn mode_of(i: i64) -> GameMode {
     match i.rem_euclid(4) {
@@ -157,6 +161,89 @@ const FIXED_LISTS: &[&[(i64, f64, f64)]] = &[
     &[(0, 0.0, 0.0), (-1, 30.0, 60.0), (-1, 80.0, 10.0), (-1, 120.0, 90.0)],
 ];
 
+fn decoded_count(tier: Tier) -> u64 {
+    match tier {
+        Tier::Quick => 30_000,
+        Tier::Thorough => 600_000,
+    }
+}
+
+/// The decoder and the encoder as clients: every slider of a decoded map carries a curve cached from ONE shared
+/// CurveBuffers (decoder post-processing); it must equal the curve computed on fresh buffers, before and after encode,
+/// and so must what the accessors return with a user-owned shared buffer set.
+fn exec_decoded(plan: &Plan, st: &mut Stats) -> Result<(), Violation> {
+    use rosu_map::Beatmap;
+    let Ok(text) = std::str::from_utf8(&plan.data) else { return Ok(()) };
+    // the path's mode is the mode known when its line was parsed: require [General]'s Mode before [HitObjects]
+    if let (Some(m), Some(h)) = (text.find("Mode"), text.find("[HitObjects]")) {
+        if m > h {
+            return Ok(());
+        }
+    }
+    if text.matches("Mode").count() > 1 {
+        return Ok(());
+    }
+    let mut map: Beatmap = rosu_map::from_bytes(&plan.data).map_err(|e| Violation::new("C18/decode-error", "err", e.to_string()))?;
+    let mode = map.mode;
+    let mut user_bufs = CurveBuffers::default();
+    let mut acc = Fnv::new();
+    for round in 0..2 {
+        let mut prev_pts = 0usize;
+        for (k, h) in map.hit_objects.iter_mut().enumerate() {
+            let start = h.start_time;
+            let HitObjectKind::Slider(ref mut sl) = h.kind else { continue };
+            st.inc("steps.ops_applied");
+            let pts = sl.path.control_points().to_vec();
+            let len = sl.path.expected_dist();
+            let want = fresh(mode, &pts, len);
+            if pts.len() < prev_pts {
+                st.inc("probe.decoded-slider-smaller-than-its-predecessor");
+            }
+            prev_pts = pts.len();
+            let cached = {
+                let c = sl.path.curve();
+                snap(c.path(), c.lengths())
+            };
+            acc.u64(cached.path.len() as u64);
+            let who = if round == 0 { "decoder post-processing" } else { "encoder" };
+            if cached != want {
+                return Err(Violation::new("C18/differs-from-fresh-buffers", if pts.is_empty() { "empty-control-point-list" } else { "reuse" }, format!("slider #{k} at {start}: curve cached by the {who} has {} path points / {} lengths, fresh buffers give {} / {} ({} control points)", cached.path.len(), cached.lengths.len(), want.path.len(), want.lengths.len(), pts.len())));
+            }
+            let b = {
+                let c = sl.path.borrowed_curve(&mut user_bufs);
+                snap(c.path(), c.lengths())
+            };
+            if b != want {
+                return Err(Violation::new("C18/differs-from-fresh-buffers", "reuse", format!("slider #{k}: borrowed_curve with a shared user buffer differs from fresh buffers after the {who} ran")));
+            }
+            // an uncached twin computed on the shared user buffers (what a downstream crate does)
+            let twin = {
+                let c = BorrowedCurve::new(mode, &pts, len, &mut user_bufs);
+                snap(c.path(), c.lengths())
+            };
+            if twin != want {
+                return Err(Violation::new("C18/differs-from-fresh-buffers", if pts.is_empty() { "empty-control-point-list" } else { "reuse" }, format!("slider #{k}: BorrowedCurve::new on user buffers shared across the map's sliders differs from fresh buffers ({} control points)", pts.len())));
+            }
+            st.inc("ops.decoded-map-sliders-checked");
+        }
+        if round == 0 {
+            let mut out = Vec::new();
+            // the encoder walks the sliders with its own shared buffers and refreshes nothing it should not
+            for h in map.hit_objects.iter_mut() {
+                if let HitObjectKind::Slider(ref mut sl) = h.kind {
+                    sl.path.clear_curve();
+                }
+            }
+            if map.encode(&mut out).is_err() {
+                return Ok(()); // encoding failures are C01's business
+            }
+            st.inc("ops.encode-as-buffer-client");
+        }
+    }
+    st.outcome = acc.finish();
+    Ok(())
+}
+
 fn enum_count(maxlen: u32) -> u64 {
     (0..=maxlen).map(|l| 24u64.pow(l)).sum()
 }
@@ -175,7 +262,7 @@ impl Scenario for C18 {
         "exploration"
     }
     fn rule(&self) -> String {
-        "Operation histories over one shared CurveBuffers, a pool of control-point lists (empty, single point, linear, Bezier 2..10 points, perfect curves incl. collinear, Catmull, multi-segment, B-spline with degree, large Bezier that over-grows the buffers, duplicates, randomly typed points) and four slider slots: ops {compute owned, compute borrowed (read or dropped unread), SliderPath::curve / curve_with_bufs / borrowed_curve, HitObjectSlider::duration_with_bufs, HitObject::end_time_with_bufs, push/pop/move/retype a control point through control_points_mut, change the length through expected_dist_mut, clear_curve}. (1) every sequence up to length 3 (quick) / 4 (thorough) over {owned, borrowed} x 6 fixed lists x {no length, 50} — enumerated; (2) seeded histories of length <= 24. After every computing op: bit-identical to Curve::new on fresh buffers for the current (mode, points, length). distinct_nontrivial = distinct plan hashes with >= 2 operations.".into()
+        "Operation histories over one shared CurveBuffers, a pool of control-point lists (empty, single point, linear, Bezier 2..10 points, perfect curves incl. collinear, Catmull, multi-segment, B-spline with degree, large Bezier that over-grows the buffers, duplicates, randomly typed points) and four slider slots: ops {compute owned, compute borrowed (read or dropped unread), SliderPath::curve / curve_with_bufs / borrowed_curve, HitObjectSlider::duration_with_bufs, HitObject::end_time_with_bufs, push/pop/move/retype a control point through control_points_mut, change the length through expected_dist_mut, clear_curve}. (1) every sequence up to length 3 (quick) / 4 (thorough) over {owned, borrowed} x 6 fixed lists x {no length, 50} — enumerated; (2) seeded histories of length <= 24; (3) decoded-map: bundled / generated maps (with extra sliders of mixed sizes) decoded by the real decoder, whose post-processing shares one CurveBuffers across all sliders and caches each curve — every cached curve, borrowed_curve and BorrowedCurve::new on shared user buffers must equal fresh buffers, before and after the encoder has recomputed them with its own shared buffers. After every computing op: bit-identical to Curve::new on fresh buffers for the current (mode, points, length). distinct_nontrivial = distinct plan hashes with >= 2 operations.".into()
     }
     fn assumptions(&self) -> Vec<String> {
         vec![
@@ -192,6 +279,7 @@ impl Scenario for C18 {
                 Tier::Quick => 120_000,
                 Tier::Thorough => 2_000_000,
             }
+            + decoded_count(tier)
     }
     fn plan(&self, seed: u64, idx: u64, tier: Tier) -> Plan {
         let ne = enum_count(maxlen(tier));
@@ -224,6 +312,40 @@ impl Scenario for C18 {
             return p;
         }
         let mut rng = Rng::for_run(seed, "C18", idx);
+        if idx >= self.total_runs(tier) - decoded_count(tier) {
+            // the library's own clients of the shared buffers: the decoder's post-processing (one CurveBuffers for all
+            // sliders of a map, results cached in each SliderPath) and the encoder
+            let mut p = Plan::new("C18", "decoded-map", seed, idx);
+            let mut text = if rng.chance(1, 2) {
+                let f = self.corpus.pick(&mut rng, 12);
+                p.note = self.corpus.files[f].0.clone();
+                crate::corpus::file_text(&self.corpus.files[f].1)
+            } else {
+                crate::corpus::gen_osu(&mut rng)
+            };
+            // more sliders of mixed sizes, so that buffers grown by one are reused by a smaller one
+            if rng.chance(2, 3) {
+                if !text.contains("[HitObjects]") {
+                    text.push_str("\n[HitObjects]\n");
+                } else if !text.ends_with('\n') {
+                    text.push('\n');
+                }
+                if text.trim_end().ends_with("[HitObjects]") || rng.chance(1, 2) {
+                    let mut t = rng.range(0, 5000);
+                    for _ in 0..1 + rng.below(10) {
+                        let big = rng.chance(1, 3);
+                        let n = if big { 12 + rng.below(40) } else { 1 + rng.below(4) };
+                        let pts: Vec<String> = (0..n).map(|_| format!("{}:{}", rng.range(0, 512), rng.range(0, 384))).collect();
+                        let letter = *rng.pick(&["B", "B", "L", "P", "C"]);
+                        let seg2 = if rng.chance(1, 3) { format!("|{}|{}:{}|{}:{}", rng.pick(&["B", "L", "P", "C"]), rng.range(0, 512), rng.range(0, 384), rng.range(0, 512), rng.range(0, 384)) } else { String::new() };
+                        text.push_str(&format!("{},{},{t},2,0,{letter}|{}{seg2},{},{}\n", rng.range(0, 512), rng.range(0, 384), pts.join("|"), 1 + rng.below(3), *rng.pick(&["", "0", "50", "300.5", "2000"])));
+                        t += rng.range(-200, 900);
+                    }
+                }
+            }
+            p.data = text.into_bytes();
+            return p;
+        }
         let mut p = Plan::new("C18", "interleaved-clients", seed, idx);
         let nl = 3 + rng.below(6);
         for i in 0..nl {
@@ -261,6 +383,9 @@ impl Scenario for C18 {
         p
     }
     fn execute(&self, plan: &Plan, st: &mut Stats) -> Result<(), Violation> {
+        if plan.scen == "decoded-map" {
+            return exec_decoded(plan, st);
+        }
         let mut bufs = CurveBuffers::default();
         let mut lists: Vec<Vec<PathControlPoint>> = Vec::new();
         // slot = (real hit object holding the slider + its path cache, harness model of (mode, points, len))
@@ -274,12 +399,19 @@ impl Scenario for C18 {
         let mut h = Fnv::new();
         let mut prev_kind = "";
         let mut prev_nonempty = false;
+        let mut prev_op: Option<usize> = None;
         for (i, op) in plan.ops.iter().enumerate() {
             if op.k == "def" {
                 lists.push(points_of(&op.a));
                 continue;
             }
             st.inc("steps.ops_applied");
+            if let Some(k) = PAIRS.idx(&op.k) {
+                if let Some(p) = prev_op {
+                    st.inc(PAIRS.name(p, k));
+                }
+                prev_op = Some(k);
+            }
             let getlist = |k: i64| -> Option<&Vec<PathControlPoint>> { lists.get(k.rem_euclid(lists.len().max(1) as i64) as usize) };
             let fail = |what: &str, got: &Snap, want: &Snap, pts: usize| -> Violation {
                 let sig = if pts == 0 { "empty-control-point-list" } else { "reuse" };
@@ -449,7 +581,7 @@ impl Scenario for C18 {
         Ok(())
     }
     fn nontrivial(&self, plan: &Plan) -> bool {
-        plan.ops.iter().filter(|o| o.k != "def").count() >= 2
+        plan.ops.iter().filter(|o| o.k != "def").count() >= 2 || plan.scen == "decoded-map"
     }
     fn reach_probes(&self) -> Vec<&'static str> {
         vec![
@@ -467,6 +599,9 @@ impl Scenario for C18 {
             "fired.H2-buffers-overgrown-by-large-list",
             "probe.borrowed-on-empty-list-after-nonempty-computation",
             "probe.mutation-right-after-cache-fill",
+            "ops.decoded-map-sliders-checked",
+            "ops.encode-as-buffer-client",
+            "probe.decoded-slider-smaller-than-its-predecessor",
         ]
     }
 }
